@@ -19,8 +19,8 @@ META = {
     "id": "C11",
     "level": "proof",
     "technique": "Coq theorems over a literal model of retis_swap_zero / quantis_swap_zero (stop-rule invariants, abstract reversible dynamics) + scripted-oracle lock-step of the extracted model vs the real functions",
-    "text": "Unbounded theorems (any paths, interface triples, length limits, frame streams, draws, energies) about an executable model of the two zero-swap moves; swap_twice_id is proved for an abstract deterministic time-reversible engine (state space X, step T, reversal R with R.T.R.T = id, ord.R = ord). The model is tied to /repo by running the extracted model and the real select_shoot/retis_swap_zero/quantis_swap_zero on the same old paths, settings, engine streams, draws and energies (all valid [0-]/[0+] pairs over a small integer alphabet, limits incl. exact hits, lambda_minus_one on/off, wf high-acceptance swap, quantis with draws around the Metropolis threshold), and by evaluating the property's statement on the implementation's outputs, including a double swap with a deterministic reversible integer engine.",
-    "note": "Trusted: Coq kernel; extraction (ExtrOcamlBasic) + OCaml driver; this harness (scripted engines, scripted rgen, np.exp shim, canonicalisation). exp is not modelled: its value E is computed by numpy exactly as the code does and handed to the model as the exact rational of that float; the exponent is compared exactly (dyadic energies/betas). -inf is represented in the model by an integer below every order value of the case. Validity/reversibility theorems assume maxlength shared by [0-] and [0+] (one tis_set dict in infretis) and the interface triples of initiate_ensembles. Reversibility of real MD engines is an assumption of the statement itself.",
+    "text": "Unbounded theorems (any paths, interface values, length limits, engine frame streams, draws, energies) about an executable model of the two zero-swap moves over the current add_to_path stop rule: junction identity as frame identities and as order values (C11_swap_junction_frames, C11_swap_junction), full shape of an accepted swap and the converse sufficient conditions (C11_swap_accepted_shape, C11_swap_accepted_if), validity of both new paths (C11_swap_valid), lambda_-1 early rejection with no engine call and no draw (C11_lambda_m1_test, C11_lambda_m1_reject), QuanTIS energy rule u <= min(1,E) with the exponent's signs and the frames the four energies are read from (C11_quantis_accept_iff, C11_quantis_exponent), QuanTIS junction (C11_quantis_junction), and for an abstract deterministic time-reversible engine (state space X, step T, reversal R with R.R = id, R.T.R.T = id, ord.R = ord) that the swap back is accepted and restores both order sequences (C11_swap_twice_id, C11_swap_twice_restores). The model is tied to /repo by running the extracted model and the real select_shoot/retis_swap_zero/quantis_swap_zero on the same old paths, settings, engine streams, draws and energies (all valid [0-]/[0+] pairs over a small integer alphabet, limits incl. exact hits, lambda_minus_one on/off, wf high-acceptance swap, quantis with draws around the Metropolis threshold), and by evaluating the property's statement on the implementation's outputs, including a double swap of the real functions with a deterministic reversible integer engine.",
+    "note": "Trusted: Coq kernel; extraction (ExtrOcamlBasic) + OCaml driver; this harness (scripted engines built on plugins.engines.ScriptedEngine and the real add_to_path, scripted rgen, np.exp shim, canonicalisation). No axioms (every Print Assumptions is closed). exp is not modelled: its value E is computed by numpy exactly as the code does and handed to the model as the exact rational of that float; the exponent is compared exactly (dyadic energies/betas). -inf is represented in the model by an integer below every order value of the case. The order-value form of the junction assumes that an engine's first frame carries the order parameter of the phase point it was started from (propagate contract, C12); validity and reversibility theorems assume maxlength([0-]) <= maxlength([0+]) (one shared tis_set in infretis) and ordered interfaces. The swap never reads propagate's success flag, so it is insensitive to the add_to_path repair (C11_stop_rule_irrelevant). The QuanTIS double swap is checked on the implementation only (no Coq theorem); reversibility of real MD engines is an assumption of the statement itself. quantis_swap_zero has no lambda_-1 early exit: check_config rejects quantis together with lambda_minus_one.",
     "design_ref": "4/C11",
 }
 LEVEL = "proof"
